@@ -49,6 +49,7 @@ func ruleC08(c *Check) {
 	c.startRules("C08")
 	c.queuePairs("C08")
 	c.contextDeleters("C08")
+	c.queueDeleters("C08")
 }
 
 func ruleC09(c *Check) {
@@ -66,6 +67,8 @@ func ruleC10(c *Check) {
 	c.contextFieldRules("C10", map[string]bool{"update": true, "counter": true})
 	c.requestValidation("C10.3")
 	c.queueDeleters("C10")
+	c.heightSkeletons("C10.2")
+	c.paramGettersExact("C10.3", "KeyMaxRequestTimeout")
 	c.newBatchRules("C10", map[string]bool{"issue-without-expiry": true})
 }
 
@@ -103,7 +106,8 @@ func ruleC16(c *Check) {
 	c.respondRules("C16")
 	c.expiryScanGuard("C16.1")
 	c.feeWriters("C16")
-	c.contextFieldRules("C16", map[string]bool{"counter": true})
+	c.contextFieldRules("C16", map[string]bool{"counter": true, "state": true, "batchstate": true})
+	c.heightSkeletons("C16.3")
 	c.startRules("C16")
 	c.moduleServicePath("C16.5")
 	c.reconstruction("C16.3")
